@@ -346,7 +346,12 @@ def one_c09(args):
     sched['reopen'] = 0 if rng.chance(1, 2) else 1
     # every fourth stall / writers run also has one table fsync fail (background error while writers are queued or
     # stalled): every call must still return (with an error), nobody may sleep forever
-    faults = prof in ('stall', 'writers', 'closebg', 'manual') and idx % 4 == 1
+    faults = prof in ('stall', 'writers', 'closebg', 'manual', 'backup') and idx % 4 == 1
+    # every tenth run starts on a database that already holds dozens of level-0 tables (above the stop-writes trigger) and
+    # is opened with reuse_logs=1, so that the open itself writes nothing: the pending compaction must still get scheduled
+    preload = (idx % 10 == 7)
+    if preload:
+        sched['preload_mb'] = rng.choice([3, 5]); sched['reuse_logs'] = 1; want_abs = False
     # the thread pool's own check-then-wait window (worker going idle vs. pool shutdown at close): half of the runs widen it
     if idx % 2 == 0: sched['poolwait'] = rng.choice([300, 2000, 8000])
     if faults:
